@@ -363,3 +363,48 @@ Definition icheck_case (c : vcase) : bool :=
 Definition vdiag_bytes (c : vcase) : bytes :=
   (if one_string_ok (v_value c) (v_dense c) then [] else of_string "STRING-DENSE ") ++
   (if one_string_ok (v_value c) (v_readable c) then [] else of_string "STRING-READABLE ").
+
+(** * every entry point at node level: literals are single tokens that decode to their values
+
+    One case = a text written by one entry point of a generator at one column span, the dense
+    text of the same entry point at an unbounded span (reference) and the literals of the tree
+    in writing order: [(false, v)] a string of value [v]; [(true, v)] one text part of an
+    interpolated string (the text between two holes; adjacent text segments are one part).
+    The reference lexer must read the same tokens from both texts (so no token is broken by a
+    line) and each literal token must decode to its value: strings with
+    [StringLit.decode_literal], text parts with [StringLit.decode_segment] applied to the token
+    without its first and last byte. *)
+Record ncase := { n_lits : list (bool * bytes); n_text : bytes; n_ref : bytes }.
+
+Definition decode_token (t : token) : option (bool * bytes) :=
+  match t with
+  | (TString, s) => option_map (pair false) (StringLit.decode_literal true s)
+  | (TInterp, _ :: s) => option_map (pair true) (StringLit.decode_segment (removelast s))
+  | _ => None
+  end.
+
+Fixpoint literals_match (toks : list token) (lits : list (bool * bytes)) : bool :=
+  match toks with
+  | [] => match lits with [] => true | _ => false end
+  | t :: toks' =>
+    match fst t with
+    | TString | TInterp =>
+      match lits, decode_token t with
+      | (k, v) :: lits', Some (k', v') => Bool.eqb k k' && bytes_eqb v v' && literals_match toks' lits'
+      | _, _ => false
+      end
+    | _ => literals_match toks' lits
+    end
+  end.
+
+Definition literals_ok (c : ncase) : bool :=
+  match lex (n_text c) with
+  | Some toks => literals_match toks (n_lits c)
+  | None => false
+  end.
+
+Definition ncheck_case (c : ncase) : bool := same_tokens (n_ref c) (n_text c) && literals_ok c.
+
+Definition ndiag_bytes (c : ncase) : bytes :=
+  (if same_tokens (n_ref c) (n_text c) then [] else of_string "TOKENS " ++ lex_diff (n_ref c) (n_text c) ++ [32]) ++
+  (if literals_ok c then [] else of_string "LITERAL-VALUE ").
